@@ -497,8 +497,10 @@ fn git(c: &Case) -> String {
     let Some(st) = stage(c) else { return "-".into() };
     let op = f_str(c, 0).to_vec();
     let q = f_str(c, 1).to_vec();
-    if !st.files.contains_key(b"HEAD".as_slice()) {
-        return "-".into();
+    // without a well-formed HEAD git does not take the directory for a repository
+    match st.files.get(b"HEAD".as_slice()) {
+        Some(c) if matches!(parse_loose(c), Val::Sym(ref t) if t.starts_with(b"refs/")) => {}
+        _ => return "-".into(),
     }
     // symbolic refs are resolved by git before it prints anything: out of scope of the comparison
     if st.files.iter().any(|(n, c)| n != b"HEAD" && c.starts_with(b"ref:")) {
